@@ -37,3 +37,17 @@ def check_c11(tier="quick", seed=0):
 
 def check_c12(tier="quick", seed=0):
     return _run("C12", ["xdis.disasm:disassemble_file", "xdis.bin.pydisasm:main"], {"stdout"}, "writes to standard output outside the listing stream", tier=tier)
+
+
+C18_ROOTS = ["xdis.load:load_module", "xdis.load:load_module_from_file_object", "xdis.disasm:disassemble_file", "xdis.disasm:get_opcode", "xdis.op_imports:get_opcode_module",
+             "xdis.std:make_std_api", "xdis.marsh:dumps", "xdis.marsh:loads", "xdis.marsh:dump", "xdis.marsh:load", "xdis.unmarshal:load_code",
+             "xdis.bytecode:Bytecode.__init__", "xdis.bytecode:Bytecode.dis", "xdis.bytecode:get_instructions_bytes", "xdis.cross_dis:findlabels", "xdis.cross_dis:findlinestarts"]
+
+
+def _remap_exception(f, cls, desc):
+    """the documented exception of C18: explicit opcode remapping patches the version's table in place"""
+    return f.module == "xdis.op_imports" and f.name in ("remap_opcodes",)
+
+
+def check_c18(tier="quick", seed=0):
+    return _run("C18", C18_ROOTS, {"global-write"}, "writes process-wide state (module-level or class-level table, mutable default, memo)", allow=(_remap_exception,), tier=tier)
